@@ -3,7 +3,7 @@
 set -e
 id="$1"
 cd /verif
-git pull -q --no-edit /tmp/vb_$id main || true
+git pull -q --no-edit ${VB:-/tmp/vb_$id} main || true
 # evidence files are regenerated below: on conflict take the builder's copy
 for f in $(git diff --name-only --diff-filter=U); do
   case "$f" in
